@@ -167,15 +167,26 @@ def enumerate (G : Grammar) (A : Automaton) (w : List Nat) (cost : Nat → Nat) 
           else enumerate G A w cost N fuel (c - cost t) ⟨⟨n.c.stack, n.c.pos + 1⟩, .delete :: n.rev, 0⟩
       shifts ++ inserts ++ deletes
 
+/-- remove duplicates, keeping the last occurrence of each element -/
+def dedup : List (List Repair) → List (List Repair)
+  | [] => []
+  | a :: l => if a ∈ dedup l then dedup l else a :: dedup l
+
 def stripShifts (rs : List Repair) : List Repair :=
   (rs.reverse.dropWhile (· == .shift)).reverse
+
+/-- search the costs `c, c+1, …` (at most `remaining` of them) for the first at which a repair exists -/
+def minCostFrom (G : Grammar) (A : Automaton) (w : List Nat) (cost : Nat → Nat) (N : Nat) (start : Pos) :
+    Nat → Nat → Option (Nat × List (List Repair))
+  | 0, _ => none
+  | remaining + 1, c =>
+    let r := enumerate G A w cost N (2 * (c + w.length) + 6) c ⟨start, [], 0⟩
+    if r.isEmpty then minCostFrom G A w cost N start remaining (c + 1) else some (c, r)
 
 /-- the least cost `≤ cap` at which a repair exists, with all repairs of that cost -/
 def minCostRepairs (G : Grammar) (A : Automaton) (w : List Nat) (cost : Nat → Nat) (N : Nat) (start : Pos)
     (cap : Nat) : Option (Nat × List (List Repair)) :=
-  (List.range (cap + 1)).findSome? (fun c =>
-    let r := enumerate G A w cost N (2 * (c + w.length) + 6) c ⟨start, [], 0⟩
-    if r.isEmpty then none else some (c, r))
+  minCostFrom G A w cost N start (cap + 1) 0
 
 /-- the reference answer: minimum-cost repairs that let parsing continue furthest, trailing
 shifts stripped, duplicates removed -/
@@ -185,6 +196,37 @@ def refRepairs (G : Grammar) (A : Automaton) (w : List Nat) (cost : Nat → Nat)
   | none => none
   | some (c, rs) =>
     let far := (rs.map (distance G A w start)).foldl max 0
-    some (c, ((rs.filter (fun r => distance G A w start r == far)).map stripShifts).eraseDups)
+    some (c, dedup ((rs.filter (fun r => distance G A w start r == far)).map stripShifts))
+
+end GrmVerif.Rec
+
+namespace GrmVerif.Rec
+open GrmVerif LR
+
+/-! ### the recovering driver over state stacks, parametric in the recoverer (C07) -/
+
+/-- one reported error: position (index of the lexeme it was detected at) and its repair sequences -/
+structure Err where
+  pos : Nat
+  repairs : List (List Repair)
+deriving Repr, Inhabited
+
+/-- `Parser::lr` with a recoverer, on state stacks: plain LR until the table refuses the lookahead;
+then `recover` is asked for the configuration to continue from and the repair sequences; no
+sequences = give up (no value). Returns (value produced?, errors in order). -/
+def recRun (G : Grammar) (A : Automaton) (w : List Nat)
+    (recover : Pos → Option (Pos × List (List Repair))) : Nat → Pos → List Err → Bool × List Err
+  | 0, _, errs => (false, errs)
+  | fuel + 1, c, errs =>
+    match feed G A (nextTok G w c.pos) FUEL c.stack with
+    | .shifted s => recRun G A w recover fuel ⟨s, c.pos + 1⟩ errs
+    | .accept _ => (true, errs)
+    | .error s =>
+      match recover ⟨s, c.pos⟩ with
+      | none => (false, errs ++ [⟨c.pos, []⟩])
+      | some (c', rs) =>
+        if rs.isEmpty then (false, errs ++ [⟨c.pos, []⟩])
+        else recRun G A w recover fuel c' (errs ++ [⟨c.pos, rs⟩])
+    | _ => (false, errs)
 
 end GrmVerif.Rec
